@@ -178,14 +178,25 @@ def f19(run, v, entry, exc):
 
 
 def _nested_compound(rel):
-    from lsst.daf.relation import BinaryOperationRelation, Chain
+    from lsst.daf.relation import BinaryOperationRelation, Chain, MarkerRelation
     from lsst.daf.relation.sql import Select
 
     for n in _walk(rel):
         if isinstance(n, BinaryOperationRelation) and isinstance(n.operation, Chain):
             for o in (n.lhs, n.rhs):
-                if isinstance(o, Select) and o.is_compound:
-                    return True
+                # look through operation-free wrappers (a Select around a user marker around a compound Select
+                # compiles to the same parenthesised compound)
+                while True:
+                    if isinstance(o, Select):
+                        if o.is_compound:
+                            return True
+                        if o.has_sort or o.has_slice or o.has_projection or o.has_deduplication or o.target is not o.skip_to:
+                            break
+                        o = o.target
+                    elif isinstance(o, MarkerRelation) and o.payload is None:
+                        o = o.target
+                    else:
+                        break
     return False
 
 
@@ -194,7 +205,10 @@ def f16(run, v, entry, exc):
     """chain whose operand is itself a chain: parenthesised compound SELECT, rejected by SQLite."""
     if entry is None or v.get("exc_type") != "OperationalError":
         return False
-    return 'near "(": syntax error' in v.get("exc_msg", "") and _nested_compound(entry.rel)
+    # (SQLite names the token after which it gave up: "(" when the parenthesised compound is the right operand,
+    #  "UNION" when it is the left one)
+    msg = v.get("exc_msg", "")
+    return ('near "(": syntax error' in msg or 'near "UNION": syntax error' in msg) and _nested_compound(entry.rel)
 
 
 def _leaf_names(rel):
